@@ -227,14 +227,17 @@ impl Iterator for ClientConnection {
 
             // checking HTTP version
             if *rq.http_version() > (1, 1) {
-                let writer = self.sink.next().unwrap();
+                // answer through the rejected request's own writer: a writer taken
+                // after it could never get its turn while `rq` is alive in this frame
+                let mut writer = rq.into_writer();
                 let response = Response::from_string(
                     "This server only supports HTTP versions 1.0 and 1.1".to_owned(),
                 )
                 .with_status_code(StatusCode(505));
                 response
-                    .raw_print(writer, HTTPVersion(1, 1), &[], false, None)
+                    .raw_print(&mut writer, HTTPVersion(1, 1), &[], false, None)
                     .ok();
+                std::io::Write::flush(&mut writer).ok();
                 continue;
             }
 
